@@ -120,6 +120,8 @@ func seqProfile(prop string, g *Gen, cfg *Config, rng *SplitMix) (steps int) {
 		g.W["new_task"], g.W["new_epic"], g.W["set"], g.W["plan"] = 25, 10, 30, 10
 		g.W["compact"] = 6
 		g.BadBias = 3
+		g.EditAgainPct = 30
+		cfg.Clock = []string{"fine", "coarse", "second", "leap", "back", "back"}[rng.Intn(6)]
 		cfg.StdinChunk = rng.Chance(1, 2)
 		if rng.Chance(1, 2) {
 			cfg.ShortWriteDen = 2
@@ -224,6 +226,7 @@ func runSeqGenerated(bin, prop string, seed uint64) (rep *RunReport) {
 	}
 	mergedCycle := false
 	tornPlan := prop == "C11" && rng.Chance(1, 4)
+	tornDry := prop == "C09" && rng.Chance(1, 3)
 	tornAt := -1
 	if prop == "C08" && rng.Chance(1, 4) {
 		// a claim whose append was torn after its first line: the task is todo
@@ -235,6 +238,14 @@ func runSeqGenerated(bin, prop string, seed uint64) (rep *RunReport) {
 		st := g.Next(r.M)
 		if i == tornAt {
 			st = Step{Disk: &DiskOp{Kind: "tail_partial_batch"}}
+		}
+		if tornDry && st.Cmd != nil && st.Cmd.Op == "prune" && !st.Cmd.Yes && i > 0 {
+			// the dry run meets the torn tail of a killed append: "writes
+			// nothing" includes not tidying that up
+			tornDry = false
+			ds := Step{Disk: &DiskOp{Kind: "tail_fragment", Arg: `{"type":"state","ts":"2030-01-01T00:00:00Z","data":{"id":"QQQQQQ","sta`}}
+			sc.Steps = append(sc.Steps, ds)
+			r.ExecStep(ds)
 		}
 		if tornPlan && st.Cmd != nil && st.Cmd.Op == "plan" && i > 0 {
 			// the store plan is applied to carries the torn tail of a killed
